@@ -31,7 +31,7 @@ PROPS = {
                       (["join", "try_join", "merge", "zip", "race", "race_ok", "chain"], "big", 0.05), (GROUPS, "big", 0.08),
                       (["join", "try_join", "merge", "zip"], "waves", 0.08)],
                 assumptions=COMMON_ASSUME),
-    "C02": dict(monitor="C02", proj="C02", modules=["C02a", "C02b", "C02g", "C02nest", "C02co"], ps=True, cfgs=ALL3 + ["std-co", "alloc-co"], quick=900, thorough=12000,
+    "C02": dict(ktie=["JoinV"], monitor="C02", proj="C02", modules=["C02a", "C02b", "C02g", "C02nest", "C02co"], ps=True, cfgs=ALL3 + ["std-co", "alloc-co"], quick=900, thorough=12000,
                 gens=[(["co"], "random", 1.5), (["co"], "errs", 0.7), (["co"], "stuck", 0.5), (GROUPS, "exh", 0.3), (["join", "try_join", "race", "race_ok", "merge", "zip", "chain"], "exh", 0.4), (ALL_FIXED, "random", 1.0), (GROUPS, "random", 0.4), (ALL_FIXED + GROUPS, "panic", 0.5),
                       (["join", "try_join", "race_ok", "zip"], "big", 0.05)],
                 assumptions=COMMON_ASSUME + ["memory effects of unsafe code are outside the model; the model "
@@ -49,7 +49,7 @@ PROPS = {
                       # wide containers (more children than any per-poll budget / bit block), nobody ready on the first poll
                       (CONC, "big", 0.1), (GROUPS, "big", 0.15)],
                 assumptions=COMMON_ASSUME),
-    "C04": dict(ktie=["PS"], monitors=["C04", "NP", "LV"], monitor="C04", modules=["C04", "C04state", "C01"], proj="FUN", ps=True, cfgs=ALL3, quick=1500, thorough=20000,
+    "C04": dict(ktie=["PS", "JoinV"], monitors=["C04", "NP", "LV"], monitor="C04", modules=["C04", "C04state", "C01"], proj="FUN", ps=True, cfgs=ALL3, quick=1500, thorough=20000,
                 gens=[(["join"], "mt", 0.3), (["join"], "drain", 0.5), (["join"], "exh", 1.0), (["join"], "random", 1.0), (["join"], "stuck", 0.3), (["join"], "panic", 0.2),
                       (["join"], "big", 0.08), (["join"], "waves", 0.25)],
                 assumptions=COMMON_ASSUME),
@@ -79,7 +79,7 @@ PROPS = {
                 gens=[(["zip"], "mt", 0.3), (["zip"], "drain", 0.5), (["zip"], "exh", 1.0), (["zip"], "random", 1.0), (["zip"], "fair", 0.4), (["zip"], "stuck", 0.2),
                       (["zip"], "panic", 0.2), (["zip"], "big", 0.08), (["zip"], "waves", 0.1)],
                 assumptions=COMMON_ASSUME + ["zip over zero inputs is outside C09"]),
-    "C10": dict(monitors=["C10", "C03", "NP", "LV"], monitor="C10", modules=["C10", "C01seq"], proj="FUN", cfgs=ALL3, quick=2500, thorough=30000,
+    "C10": dict(ktie=["ChainV"], monitors=["C10", "C03", "NP", "LV"], monitor="C10", modules=["C10", "C01seq"], proj="FUN", cfgs=ALL3, quick=2500, thorough=30000,
                 gens=[(["chain"], "drain", 0.5), (["chain"], "exh", 1.0), (["chain"], "random", 1.0), (["chain"], "fair", 0.4), (["chain"], "stuck", 0.2),
                       (["chain"], "panic", 0.2), (["chain"], "big", 0.08)],
                 assumptions=COMMON_ASSUME),
